@@ -67,6 +67,15 @@ type Ctx struct {
 	Race  bool // running in the race-instrumented binary
 	res   *CaseResult
 	mu    sync.Mutex
+	prog  func()
+}
+
+// Progress tells the parent's watchdog that operations are still completing (long cases call it
+// every few hundred operations; it is rate-limited).
+func (c *Ctx) Progress() {
+	if c.prog != nil {
+		c.prog()
+	}
 }
 
 func (c *Ctx) Violate(sig, format string, a ...any) {
@@ -171,8 +180,12 @@ func caseSeed(seed int64, part string, idx int) int64 {
 
 // RunCase executes one case in this process.
 func RunCase(ck *Check, p *Part, tier Tier, seed int64, idx int, race bool) (res CaseResult) {
+	return runCase(ck, p, tier, seed, idx, race, nil)
+}
+
+func runCase(ck *Check, p *Part, tier Tier, seed int64, idx int, race bool, prog func()) (res CaseResult) {
 	res = CaseResult{Part: p.Name, Case: idx}
-	c := &Ctx{Prop: ck.ID, Part: p.Name, Tier: tier, Seed: seed, Index: idx, Race: race,
+	c := &Ctx{Prop: ck.ID, Part: p.Name, Tier: tier, Seed: seed, Index: idx, Race: race, prog: prog,
 		Rand: rand.New(rand.NewSource(caseSeed(seed, p.Name, idx))), res: &res}
 	func() {
 		defer func() {
@@ -216,17 +229,33 @@ func WorkerMain(prop, part string, tier Tier, seed int64, from, to int, out stri
 		return 3
 	}
 	defer f.Close()
+	var fmu sync.Mutex
+	lastProg := time.Now()
+	prog := func() {
+		fmu.Lock()
+		defer fmu.Unlock()
+		if time.Since(lastProg) > time.Second {
+			lastProg = time.Now()
+			fmt.Fprintf(f, "P\n")
+		}
+	}
 	for idx := from; idx < to; idx++ {
+		fmu.Lock()
 		fmt.Fprintf(f, "S %d\n", idx)
+		fmu.Unlock()
 		fmt.Fprintf(os.Stderr, "\n@@CASE %s %s %d\n", prop, part, idx)
-		res := RunCase(ck, p, tier, seed, idx, race)
+		res := runCase(ck, p, tier, seed, idx, race, prog)
 		b, err := json.Marshal(res)
 		if err != nil {
 			b, _ = json.Marshal(CaseResult{Part: part, Case: idx, Viol: []Violation{{Sig: "harness-marshal", Detail: err.Error()}}})
 		}
+		fmu.Lock()
 		fmt.Fprintf(f, "R %s\n", b)
+		fmu.Unlock()
 	}
+	fmu.Lock()
 	fmt.Fprintf(f, "E\n")
+	fmu.Unlock()
 	return 0
 }
 
@@ -560,8 +589,10 @@ func runPart(o Options, ck *Check, p *Part, work string, agg *Aggregate) {
 		jobs = append(jobs, job{a, b})
 	}
 	quiet := p.Quiet
-	if quiet <= 0 {
-		quiet = 60 * time.Second
+	if quiet < 75*time.Second {
+		// a goroutine dump shows how long a goroutine has been parked only from one minute on, and
+		// that annotation is what classifyHang requires (see there)
+		quiet = 75 * time.Second
 	}
 	bin := o.BinPlain
 	if p.Race {
@@ -755,8 +786,11 @@ loop:
 	return nil
 }
 
-// classifyHang inspects a SIGQUIT goroutine dump: blocked means some goroutine is parked on a
-// lock, channel or select with a spine-go frame on its stack.
+// classifyHang inspects a SIGQUIT goroutine dump. "Blocked" is declared conservatively: some goroutine has
+// been parked for at least a minute (the runtime annotates the wait time from one minute on) on a lock,
+// channel or select with a spine-go frame on its own stack, while the whole process made no progress for the
+// quiet period. Single operations of the stack take micro- to milliseconds, so a minute inside its locks is a
+// wedge; heartbeat streams idle in select by design and are excluded.
 func classifyHang(dump string) (sig string, blocked bool) {
 	idx := strings.Index(dump, "SIGQUIT")
 	if idx >= 0 {
@@ -768,20 +802,26 @@ func classifyHang(dump string) (sig string, blocked bool) {
 		if i := strings.Index(g, "\n"); i >= 0 {
 			head = g[:i]
 		}
+		if !strings.Contains(head, " minutes]") {
+			continue
+		}
 		parked := strings.Contains(head, "sync.Mutex.Lock") || strings.Contains(head, "semacquire") || strings.Contains(head, "sync.RWMutex") ||
 			strings.Contains(head, "chan receive") || strings.Contains(head, "chan send") || strings.Contains(head, "select") || strings.Contains(head, "sync.WaitGroup.Wait") || strings.Contains(head, "sync.Cond.Wait")
 		if !parked {
 			continue
 		}
-		if fr := InnermostSpineFrame(g); fr != "" {
-			// heartbeat streams idle in select by design
-			if strings.Contains(fr, "updateHeartbeatData") {
+		body := g
+		if i := strings.Index(body, "\ncreated by "); i >= 0 {
+			body = body[:i]
+		}
+		if fr := InnermostSpineFrame(body); fr != "" {
+			if strings.Contains(fr, "updateHeartbeatData") || strings.Contains(fr, "verifPoint") {
 				continue
 			}
 			return fr, true
 		}
 	}
-	return "no-spine-frame-parked", false
+	return "no-goroutine-parked-in-spine-go-for-a-minute", false
 }
 
 // ---------------------------------------------------------------------------
